@@ -287,7 +287,7 @@ def move_prev_char(text: str | bytes, start_offs: int, end_offs: int) -> int:
         raise TypeError(text)
     if _byte_encoding == "utf8":
         o = end_offs - 1
-        while text[o] & 0xC0 == 0x80:
+        while o > start_offs and text[o] & 0xC0 == 0x80:
             o -= 1
         return o
     if _byte_encoding == "wide" and within_double_byte(text, start_offs, end_offs - 1) == 2:
